@@ -221,6 +221,55 @@ theorem spec_array_refine_nd (g : Geo) (ns ks : List Nat) (vf : List Nat → Rat
   apply sumBox_congr; intro i _
   field_simp
 
+/-- Array voxel volume, ANY dimension, MIXED resolutions: every axis is either coarsened or refined by an integer factor
+(`pureAxes kn kd`: per axis one of the two factors is 1).  A field that is piecewise constant on the common base grid `B`
+gives the same integral when supplied at the data resolution `B ⊙ kd` as at the native resolution `B ⊙ kn`.
+This contains `spec_array_coarsen_nd` (`kd = 1…`) and `spec_array_refine_nd` (`kn = 1…`) and the case repaired by the
+shrink-then-enlarge `fix:` (one axis coarsened, the other refined). -/
+theorem spec_array_mixed_nd (g : Geo) (B kn kd : List Nat) (vf : List Nat → Rat)
+    (hv : g.vol = .array (mulShape B kn) vf) (h1 : B.length = kn.length) (h2 : B.length = kd.length)
+    (hB : allPos B = true) (hn : allPos kn = true) (hk : allPos kd = true) (hp : pureAxes kn kd = true)
+    (d : Data) (hd : d.shape = B) (c : Nat) :
+    specAt g (d.replicate kd) c = specAt g (d.replicate kn) c := by
+  have hP : (prodL kd : Rat) ≠ 0 := by
+    have : 0 < prodL kd := by
+      clear h2 hp
+      induction kd with
+      | nil => simp [prodL]
+      | cons k ks ih => rw [allPos_cons] at hk; simp only [prodL]; exact Nat.mul_pos hk.1 (ih hk.2)
+    positivity
+  have hN : specAt g (d.replicate kn) c = sumBox (mulShape B kn) (fun i => vf i * d.val (divIdx i kn) c) := by
+    simp only [specAt, Data.replicate, hd]
+    apply sumBox_congr; intro idx hidx
+    simp only [effVol, hv]
+    rw [overlap_id _ vf idx hidx]
+  have hD : specAt g (d.replicate kd) c = sumBox (mulShape B kn) (fun i => sumBox (mulShape B kd) fun j =>
+      (fun b => if divIdx i kn = b then vf i * (1 / (prodL kd : Rat)) * d.val b c else 0) (divIdx j kd)) := by
+    simp only [specAt, Data.replicate, hd, effVol, hv]
+    rw [sumBox_comm]
+    apply sumBox_congr; intro j hj
+    have e : ∀ (S : Rat) (f : List Nat → Rat), sumBox (mulShape B kn) f * S = sumBox (mulShape B kn) (fun i => S * f i) := by
+      intro S f; rw [sumBox_mul_left]; ring
+    rw [e]
+    apply sumBox_congr; intro i hi
+    rw [overlapW_mixed B kn kd i j h1 h2 hB hn hk hp
+      ((inBox_length _ i hi).trans (mulShape_length B kn h1)) ((inBox_length _ j hj).trans (mulShape_length B kd h2))]
+    split <;> ring
+  rw [hN, hD]
+  apply sumBox_congr; intro i hi
+  have hin := inBox_divIdx B kn i h1 hn hi
+  rw [sumBox_div B kd h2 hk (fun b => if divIdx i kn = b then vf i * (1 / (prodL kd : Rat)) * d.val b c else 0),
+    sumBox_delta B (divIdx i kn) (fun b => vf i * (1 / (prodL kd : Rat)) * d.val b c) hin]
+  field_simp
+
+/-- `darsia.weight(img, ratio)` with one factor per trailing index (the ndarray branch, used by `normalize` for vector /
+series images; the float branch is the case of one trailing index): the integral scales by that factor -/
+theorem weight_ratio_integral (g : Geo) (d : Data) (r : Nat → Rat) (c : Nat) :
+    specAt g { d with val := fun idx k => d.val idx k * r k } c = r c * specAt g d c := by
+  simp only [specAt]
+  rw [← sumBox_mul_left]
+  apply sumBox_congr; intro idx _; ring
+
 /-- History independence, for ALL histories: whatever sequence of `integrate` calls (any shapes, any
 data, raising calls included) was made on an object before, the next call returns exactly what the same
 call returns on a fresh object. -/
